@@ -475,43 +475,42 @@ func runC05(c *Ctx) {
 		c.missing("R4", "(*Server).toLocalPath")
 	} else {
 		c.looked(fnName(tl))
+		// every value toLocalPath can return is its argument or path.Join(workDir, argument) — read off the returns
+		// (one return of a variable, or early returns), and the joined one only on the side of path.IsAbs(p) that says
+		// the path is relative
 		okShape := false
 		guard := false
-		eachInstr(tl, func(in ssa.Instruction) {
-			r, ok := in.(*ssa.Return)
-			if !ok || !isReturn(in) {
-				return
-			}
-			ph, ok := r.Results[0].(*ssa.Phi)
-			if !ok {
-				return
-			}
-			sawParam, sawJoin := false, false
-			for i, e := range ph.Edges {
-				if pr, ok := e.(*ssa.Parameter); ok && pr == tl.Params[1] {
+		{
+			sawParam, sawJoin, other := false, false, false
+			guardAll := true
+			for _, rl := range returnLeaves(tl, 0) {
+				if pr, ok := rl.v.(*ssa.Parameter); ok && len(tl.Params) > 1 && pr == tl.Params[1] {
 					sawParam = true
 					continue
 				}
-				if call, ok := e.(*ssa.Call); ok && callIs(&call.Call, "path.Join") {
-					sawJoin = true
-					// join(workDir, p)
-					pred := ph.Block().Preds[i]
-					// guarded by !path.IsAbs(p)
-					for _, b := range tl.Blocks {
-						iff, ok := b.Instrs[len(b.Instrs)-1].(*ssa.If)
-						if !ok {
-							continue
-						}
-						if ic, ok := iff.Cond.(*ssa.Call); ok && callIs(&ic.Call, "path.IsAbs") && ic.Call.Args[0] == ssa.Value(tl.Params[1]) {
-							if b.Succs[1] == pred || b.Succs[1].Dominates(pred) {
-								guard = true
-							}
-						}
+				call, ok := rl.v.(*ssa.Call)
+				if !ok || !callIs(&call.Call, "path.Join") {
+					other = true
+					continue
+				}
+				sawJoin = true
+				g := false
+				conds := edgeConds(rl.block, rl.pred)
+				for cv, truth := range edgeConds(call.Block(), nil) {
+					conds[cv] = truth
+				}
+				for cv, truth := range conds {
+					if ic, ok := cv.(*ssa.Call); ok && callIs(&ic.Call, "path.IsAbs") && !truth && len(tl.Params) > 1 && ic.Call.Args[0] == ssa.Value(tl.Params[1]) {
+						g = true
 					}
 				}
+				if !g {
+					guardAll = false
+				}
 			}
-			okShape = sawParam && sawJoin
-		})
+			okShape = sawParam && sawJoin && !other
+			guard = sawJoin && guardAll
+		}
 		c.check(okShape, "R4", "toLocalPath result", p.Pos(tl.Pos()), "p or path.Join(workDir, p)", "toLocalPath returns something other than p or path.Join(workDir, p)")
 		// path.Join cleans: "link/../x" loses the symlink before the file system sees it.  A process whose working
 		// directory is workDir resolves such a path through the link.
@@ -1195,9 +1194,19 @@ func checkRemoveAllComposite(c *Ctx, rule string) {
 			if r, ok := in.(*ssa.Return); ok && isReturn(in) && len(r.Results) == 1 {
 				for cv, truth := range edgeConds(r.Block(), nil) {
 					if bo, ok := cv.(*ssa.BinOp); ok && isNilConst(bo.Y) && bo.X == r.Results[0] && (bo.Op == token.NEQ) == truth {
-						if ph, ok := r.Results[0].(*ssa.Phi); ok {
-							testedNonNil[ph.Block()] = true
+						// every phi that feeds the tested value: the nil one of them started with cannot come out here
+						seenPhi := map[*ssa.Phi]bool{}
+						var mark func(v ssa.Value)
+						mark = func(v ssa.Value) {
+							if ph, ok := v.(*ssa.Phi); ok && !seenPhi[ph] {
+								seenPhi[ph] = true
+								testedNonNil[ph.Block()] = true
+								for _, e := range ph.Edges {
+									mark(e)
+								}
+							}
 						}
+						mark(r.Results[0])
 					}
 				}
 			}
